@@ -252,3 +252,44 @@ Theorem state_hook_unarmed kernel reg te ee training as_pre data :
   fires reg te ee training = false ->
   call_with_state_hook RN kernel reg te ee training as_pre data = probe_forward RN data.
 Proof. intros Hf. unfold call_with_state_hook. rewrite Hf. reflexivity. Qed.
+
+(* ====================================================================== one run opportunity (sequence cases) *)
+Theorem manual_fires_spec reg force ignore te ee training :
+  manual_fires reg force ignore te ee training =
+  (reg || force) && (ignore || (te && training) || (ee && negb training)).
+Proof. unfold manual_fires. rewrite fires_spec. destruct reg, force, ignore, te, ee, training; reflexivity. Qed.
+
+Theorem hook_step_unfired kernel data : hook_step RN kernel false data = data.
+Proof. reflexivity. Qed.
+
+(* whatever value the attribute path reaches when the clamping hook runs, the value stored afterwards is in range *)
+Theorem hook_step_clamp_post lo hi data row y :
+  (forall l h, lo = Some l -> hi = Some h -> l <= h) ->
+  In row (hook_step RN (clamp_kernel RN lo hi) true data) -> In y row ->
+  (forall l, lo = Some l -> l <= y) /\ (forall h, hi = Some h -> y <= h).
+Proof. intros. eapply clamp_kernel_post; eauto. Qed.
+
+Theorem hook_step_normalize_post o s eps data f :
+  ord_ok o -> 0 < eps -> In f data -> eps <= pnorm RN o f ->
+  In (normalize_vec RN o s eps f) (hook_step RN (normalize_fibres RN o s eps) true data) /\
+  pnorm RN o (normalize_vec RN o s eps f) = Rabs s.
+Proof. intros. apply normalize_fibres_post; auto. Qed.
+
+(* integral targets with integral bounds stay integral (so keeping the integer dtype loses nothing) ... *)
+Theorem clamp_Z_closed l h x : exists z, clamp RN (Some (IZR l)) (Some (IZR h)) (IZR x) = IZR z.
+Proof.
+  unfold clamp. rewrite tmax_R, tmin_R. unfold Rmin, Rmax.
+  destruct (Rle_dec (IZR x) (IZR l)); destruct (Rle_dec _ (IZR h)); eauto.
+Qed.
+
+(* ... and with a fractional (Python float) bound an integral / bool target is stored in the default floating
+   type, i.e. the value moved onto the bound is stored exactly *)
+Theorem clamp_dtype_float_bound dt lf hf :
+  (dt < 4)%nat -> lf = Some true \/ hf = Some true -> clamp_dtype dt lf hf = 5%nat.
+Proof.
+  intros Hd Hb. unfold clamp_dtype, is_float_dt.
+  destruct (Nat.leb_spec 4 dt); [lia|]. destruct Hb as [-> | ->]; simpl; auto. rewrite orb_true_r. reflexivity.
+Qed.
+
+Theorem clamp_dtype_float_target dt lf hf : (4 <= dt)%nat -> clamp_dtype dt lf hf = dt.
+Proof. intros Hd. unfold clamp_dtype, is_float_dt. destruct (Nat.leb_spec 4 dt); [reflexivity|lia]. Qed.
